@@ -101,6 +101,19 @@ impl Header {
     }
   }
 
+  /// Number of 8KB banks of cartridge RAM. A 2KB cartridge RAM counts as one
+  /// (partial) bank.
+  pub fn get_ram_bank_count(&self) -> usize {
+    let size = self.get_ram_size_bytes();
+    if size == 0 {
+      0
+    } else if size < 0x2000 {
+      1
+    } else {
+      size / 0x2000
+    }
+  }
+
   pub fn valid_checksum(&self) -> bool {
     let buffer = self.as_buffer();
     let mut check: u8 = 0;
@@ -114,9 +127,9 @@ impl Header {
   pub fn create_cart_state(&self) -> Box<dyn CartState> {
     match self.cart_type {
       0x00 => Box::new(NullCartState::new()),
-      0x01 | 0x02 | 0x03 => Box::new(MBC1CartState::new()),
+      0x01 | 0x02 | 0x03 => Box::new(MBC1CartState::new(self.get_rom_bank_count(), self.get_ram_bank_count())),
       
-      0x11 | 0x12 | 0x13 => Box::new(MBC3CartState::new()),
+      0x11 | 0x12 | 0x13 => Box::new(MBC3CartState::new(self.get_rom_bank_count(), self.get_ram_bank_count())),
 
       _ => panic!("Unsupported cart type"),
     }
@@ -176,16 +189,30 @@ pub struct MBC1CartState {
   ram_bank: usize,
   ram_enabled: bool,
   select_ram: bool,
+  rom_bank_count: usize,
+  ram_bank_count: usize,
 }
 
 impl MBC1CartState {
-  fn new() -> Self {
+  fn new(rom_bank_count: usize, ram_bank_count: usize) -> Self {
     MBC1CartState {
       rom_bank: 1,
       ram_bank: 0,
       ram_enabled: false,
       select_ram: false,
+      rom_bank_count,
+      ram_bank_count,
     }
+  }
+}
+
+/// The cartridge only decodes as many bank-select lines as it has banks, so a
+/// selected bank number wraps around at the actual number of banks.
+fn reduce_bank(bank: usize, bank_count: usize) -> usize {
+  if bank_count == 0 {
+    0
+  } else {
+    bank % bank_count
   }
 }
 
@@ -204,7 +231,7 @@ impl CartState for MBC1CartState {
   }
 
   fn get_rom_bank(&self) -> usize {
-    if self.select_ram {
+    let bank = if self.select_ram {
       self.rom_bank
     } else {
       let bank_high = self.ram_bank << 5;
@@ -214,12 +241,13 @@ impl CartState for MBC1CartState {
       }
       bank |= bank_high;
       bank
-    }
+    };
+    reduce_bank(bank, self.rom_bank_count)
   }
 
   fn get_ram_bank(&self) -> usize {
     if self.select_ram {
-      self.ram_bank
+      reduce_bank(self.ram_bank, self.ram_bank_count)
     } else {
       0
     }
@@ -238,14 +266,18 @@ pub struct MBC3CartState {
   rom_bank: usize,
   ram_bank: usize,
   ram_enabled: bool,
+  rom_bank_count: usize,
+  ram_bank_count: usize,
 }
 
 impl MBC3CartState {
-  pub fn new() -> Self {
+  pub fn new(rom_bank_count: usize, ram_bank_count: usize) -> Self {
     Self {
       rom_bank: 1,
       ram_bank: 0,
       ram_enabled: false,
+      rom_bank_count,
+      ram_bank_count,
     }
   }
 }
@@ -272,10 +304,10 @@ impl CartState for MBC3CartState {
     if bank == 0 {
       bank = 1;
     }
-    bank
+    reduce_bank(bank, self.rom_bank_count)
   }
 
   fn get_ram_bank(&self) -> usize {
-    self.ram_bank
+    reduce_bank(self.ram_bank, self.ram_bank_count)
   }
 }
